@@ -33,6 +33,7 @@ class Result:
         self.edges = None         # key -> [(action index, succ key)] when keep_edges
         self.root = None
         self.wall = 0.0
+        self.error_transitions = 0
 
     def path_to(self, key):
         path = []
@@ -121,9 +122,14 @@ def explore(spec, *, procs=1, cap_states=2_000_000, max_depth=None, replay_n=50,
                     res.transitions += 1
                     if flags:
                         res.flags.update(flags)
-                    if errs and len(res.errors) < max_errors:
-                        res.parent = parent
-                        res.errors.append((errs, res.path_to(key) + [ai]))
+                    if errs:
+                        # a failing transition leads to a sink: once implementation and model have diverged the product
+                        # graph is meaningless (and can be huge), so the successor is not expanded
+                        if len(res.errors) < max_errors:
+                            res.parent = parent
+                            res.errors.append((errs, res.path_to(key) + [ai]))
+                        res.error_transitions += 1
+                        continue
                     if k2 not in parent:
                         parent[k2] = (key, ai)
                         nxt.append(k2)
@@ -131,6 +137,9 @@ def explore(spec, *, procs=1, cap_states=2_000_000, max_depth=None, replay_n=50,
             if nxt:
                 res.max_depth = depth
             frontier = nxt
+            if res.error_transitions >= 50 * max_errors:
+                res.capped = bool(frontier)       # plenty of counterexamples already: stop early
+                break
             if len(parent) > cap_states or (time_cap and time.time() - t0 > time_cap):
                 res.capped = bool(frontier)
                 break
